@@ -48,3 +48,13 @@ def model_str(model, label, default=""):
 def model_val(model, label, default=None):
     v = model.get(label, default)
     return v
+
+
+def failing_of(obs):
+    """the failing case reported by a replay script, or the crash of the script itself (on the unchanged tree the
+    scripts run to completion, so a crash is the changed code failing inside the harness)"""
+    if obs.get("failing"):
+        return obs["failing"]
+    if "error" in obs:
+        return {"harness_crashed": (obs.get("stderr") or "")[-600:]}
+    return None
